@@ -490,14 +490,24 @@ func c07One(o *E2Out, dir string, in c07Input, full bool) {
 		// selection: every subset of requested names x no-deps (fresh load each time)
 		cl := closure(in.adj())
 		for sub := 1; sub < 1<<in.N; sub++ {
-			for _, nodeps := range []bool{false, true} {
+			for _, nd := range []int{0, 1, 2, 3} {
+				// (the names are requested in ascending and, when there are several, in descending order: the
+				// result must not depend on where a name stands in the request)
+				nodeps, rev := nd&1 == 1, nd&2 != 0
+				if rev && (bitsSet(sub) < 2 || (in.Replicas < 2 && in.N > 3)) {
+					continue
+				}
 				p2, err := loadFiles(dir, files, []string{"pc.yaml"}, in.Strict)
 				if err != nil {
 					return
 				}
 				var req []string
 				want := map[string]bool{}
-				for i := 0; i < in.N; i++ {
+				for ii := 0; ii < in.N; ii++ {
+					i := ii
+					if rev {
+						i = in.N - 1 - ii
+					}
 					if sub>>i&1 == 1 {
 						req = append(req, c07Name(i))
 						want[c07Name(i)] = true
